@@ -4,50 +4,98 @@
 use super::*;
 #[allow(unused_imports)]
 use crate::alloc::{vec, String, Vec};
-use crate::debug::{CallPatternDebug, CallPatternLocation};
 use crate::call_pattern::PatIndex;
+use crate::debug::{CallPatternDebug, CallPatternLocation};
 use crate::error::MockError;
 use crate::MockFnInfo;
+
+// ---- in-place function contracts (inserted above the fn by lib/kani.py; cfg(kani) only)
+//@contract src/counter.rs /pub fn lower_bound\(&self\) -> NCalls \{/
+//@ #[cfg_attr(kani, kani::requires(!(matches!(self.exactness, Exactness::AtLeastPlusOne) && self.minimum == usize::MAX)))]
+//@ #[cfg_attr(kani, kani::ensures(|r: &NCalls| r.0 == self.minimum + if matches!(self.exactness, Exactness::AtLeastPlusOne) {1} else {0}))]
+//@end
+//@contract src/counter.rs /pub fn add_to_minimum\(&mut self, delta: usize, exactness: Exactness\) \{/
+//@ #[cfg_attr(kani, kani::requires(self.minimum <= usize::MAX - delta))]
+//@ #[cfg_attr(kani, kani::modifies(self))]
+//@ #[cfg_attr(kani, kani::ensures(|_| self.minimum == old(self.minimum) + delta))]
+//@end
+//@contract src/counter.rs /pub fn exact_calls\(&self\) -> Option<NCalls> \{/
+//@ #[cfg_attr(kani, kani::ensures(|r: &Option<NCalls>| match r { Some(n) => matches!(self.exactness, Exactness::Exact) && n.0 == self.minimum, None => !matches!(self.exactness, Exactness::Exact) }))]
+//@end
 
 pub(crate) fn fmt_stub(_args: core::fmt::Arguments<'_>) -> String {
     String::new()
 }
 
-fn any_exactness() -> (Exactness, u8) {
+pub(crate) fn exactness_of(k: u8) -> Exactness {
+    match k {
+        0 => Exactness::Exact,
+        1 => Exactness::AtLeast,
+        _ => Exactness::AtLeastPlusOne,
+    }
+}
+
+pub(crate) fn exactness_code(e: &Exactness) -> u8 {
+    match e {
+        Exactness::Exact => 0,
+        Exactness::AtLeast => 1,
+        Exactness::AtLeastPlusOne => 2,
+    }
+}
+
+pub(crate) fn any_exactness() -> (Exactness, u8) {
     let k: u8 = kani::any();
     kani::assume(k < 3);
-    (
-        match k {
-            0 => Exactness::Exact,
-            1 => Exactness::AtLeast,
-            _ => Exactness::AtLeastPlusOne,
-        },
-        k,
-    )
+    (exactness_of(k), k)
+}
+
+/// helper for harnesses of other modules: build a counter with a given state (fields are private to counter.rs)
+pub(crate) fn mk_counter(actual: usize, minimum: usize, k: u8) -> CallCounter {
+    CallCounter {
+        actual_count: AtomicUsize::new(actual),
+        expectation: CallCountExpectation::new(minimum, exactness_of(k)),
+    }
+}
+
+pub(crate) fn peek(c: &CallCounter) -> usize {
+    c.actual_count.load(core::sync::atomic::Ordering::SeqCst)
+}
+
+pub(crate) fn peek_expectation(c: &CallCounter) -> (usize, u8) {
+    (c.expectation.minimum, exactness_code(&c.expectation.exactness))
+}
+
+pub(crate) fn peek_exp(e: &CallCountExpectation) -> (usize, u8) {
+    (e.minimum, exactness_code(&e.exactness))
+}
+
+/// the statement's predicate (C03): exactly n / at least n / at least n+1
+pub(crate) fn violated(actual: usize, minimum: usize, k: u8) -> bool {
+    match k {
+        0 => actual != minimum,
+        1 => actual < minimum,
+        _ => actual <= minimum,
+    }
 }
 
 struct Dummy;
 
 /// Contract of CallCounter::verify (C03): for ALL (actual, minimum, exactness):
 ///  returns actual; pushes exactly one FailedVerification iff the expectation is violated;
-///  never touches existing entries.
+///  never touches existing entries; the counter is not modified.
 //@K props=C03 tier=quick label=full feat=std fn=CallCounter::verify
 #[kani::proof]
 #[kani::stub(alloc::fmt::format, fmt_stub)]
 fn verify_full() {
     let actual: usize = kani::any();
     let minimum: usize = kani::any();
-    let (exactness, k) = any_exactness();
+    let (_, k) = any_exactness();
     // requires: lower_bound() does not overflow
     kani::assume(!(k == 2 && minimum == usize::MAX));
-    let counter = CallCounter {
-        actual_count: AtomicUsize::new(actual),
-        expectation: CallCountExpectation::new(minimum, exactness),
-    };
+    let counter = mk_counter(actual, minimum, k);
     let info = MockFnInfo::with_type_id(core::any::TypeId::of::<Dummy>());
     // one pre-existing entry, fixed capacity (a symbolic Vec length makes CBMC explode: 428 s vs 3 s)
     let mut errors: Vec<MockError> = Vec::with_capacity(2);
-    let pre = true;
     errors.push(MockError::MockNeverCalled { info });
     let pre_len = errors.len();
     let r = counter.verify(
@@ -57,40 +105,31 @@ fn verify_full() {
     );
     // ensures
     assert!(r.0 == actual);
-    let violated = match k {
-        0 => actual != minimum,
-        1 => actual < minimum,
-        _ => actual <= minimum, // at least minimum + 1
-    };
+    let violated = violated(actual, minimum, k);
     if violated {
         assert!(errors.len() == pre_len + 1);
         assert!(matches!(errors[pre_len], MockError::FailedVerification(_)));
     } else {
         assert!(errors.len() == pre_len);
     }
-    if pre {
-        assert!(matches!(errors[0], MockError::MockNeverCalled { .. }));
-    }
+    assert!(matches!(errors[0], MockError::MockNeverCalled { .. }));
     // frame: the counter is read-only
-    assert!(counter.actual_count.load(core::sync::atomic::Ordering::SeqCst) == actual);
+    assert!(peek(&counter) == actual);
     kani::cover!(violated, "violated reachable");
     kani::cover!(!violated, "satisfied reachable");
     core::mem::forget(errors);
 }
 
-/// Contract of CallCounter::fetch_add (C01/C02): returns the old value, new = old + 1 (wrapping at MAX excluded).
+/// Contract of CallCounter::fetch_add (C01/C02): returns the old value, new = old + 1.
 //@K props=C01,C02 tier=quick label=full feat=std fn=CallCounter::fetch_add
 #[kani::proof]
 fn fetch_add_full() {
     let actual: usize = kani::any();
     kani::assume(actual < usize::MAX);
-    let counter = CallCounter {
-        actual_count: AtomicUsize::new(actual),
-        expectation: CallCountExpectation::new(kani::any(), any_exactness().0),
-    };
+    let counter = mk_counter(actual, kani::any(), any_exactness().1);
     let r = counter.fetch_add();
     assert!(r == actual);
-    assert!(counter.actual_count.load(core::sync::atomic::Ordering::SeqCst) == actual + 1);
+    assert!(peek(&counter) == actual + 1);
     kani::cover!(true);
 }
 
@@ -101,8 +140,34 @@ fn into_counter_full() {
     let minimum: usize = kani::any();
     let (exactness, k) = any_exactness();
     let c = CallCountExpectation::new(minimum, exactness).into_counter();
-    assert!(c.actual_count.load(core::sync::atomic::Ordering::SeqCst) == 0);
-    assert!(c.expectation.minimum == minimum);
-    assert!(match c.expectation.exactness { Exactness::Exact => k == 0, Exactness::AtLeast => k == 1, Exactness::AtLeastPlusOne => k == 2 });
+    assert!(peek(&c) == 0);
+    assert!(peek_expectation(&c) == (minimum, k));
+    kani::cover!(true);
+}
+
+/// In-place Kani function contracts (see //@contract above), proved for all inputs.
+//@K props=C03 tier=quick label=full feat=std fn=CallCountExpectation::lower_bound
+#[kani::proof_for_contract(CallCountExpectation::lower_bound)]
+fn lower_bound_contract() {
+    let e = CallCountExpectation::new(kani::any(), any_exactness().0);
+    e.lower_bound();
+    kani::cover!(true);
+}
+
+//@K props=C02,C03 tier=quick label=full feat=std fn=CallCountExpectation::add_to_minimum
+#[kani::proof_for_contract(CallCountExpectation::add_to_minimum)]
+fn add_to_minimum_contract() {
+    let mut e = CallCountExpectation::new(kani::any(), any_exactness().0);
+    let (ex, k) = any_exactness();
+    e.add_to_minimum(kani::any(), ex);
+    assert!(exactness_code(&e.exactness) == k);
+    kani::cover!(true);
+}
+
+//@K props=C04 tier=quick label=full feat=std fn=CallCountExpectation::exact_calls
+#[kani::proof_for_contract(CallCountExpectation::exact_calls)]
+fn exact_calls_contract() {
+    let e = CallCountExpectation::new(kani::any(), any_exactness().0);
+    e.exact_calls();
     kani::cover!(true);
 }
